@@ -170,7 +170,7 @@ def runGetter (rowS name keyS extS implS : String) (prop : String := "C17") : Re
           | _, _ => none
         else none
       match m, p with
-      | _, some c => ⟨"P", s!"{name}({keyS}) on [{rowS}]: impl [{implS}] violates C17: key={c}"⟩
+      | _, some c => ⟨"P", s!"{name}({keyS}) on [{rowS}]: impl [{implS}] violates {prop}: key={c}"⟩
       | .err .ext, none => ⟨"X", "model abstains"⟩
       | .ok r, none => if r.show == impl.show then ⟨"S", ""⟩
           else ⟨"D", s!"{name}({keyS}) on [{rowS}]: impl [{implS}] model [{r.show}]"⟩
